@@ -45,13 +45,14 @@ def _one(rs, md, base_id, ci):
     ks = [k for k in (1, 3, 5, 7) if _faces_ok(cell, k * k)] if periodic else [1, 3, 5, 9]
     k = ks[rs.randint(len(ks))]
     n = int(rs.randint(2, 15))
-    mode = rs.randint(6) if periodic else rs.randint(4)
+    mode = rs.randint(7) if periodic else rs.randint(4)
     cm = np.array(cell)
     if mode >= 4:
         # a larger cell (integer multiple: many voxels per axis for the small cutoffs) with the atoms in a thin slab on both sides of
         # one cell face, spread over the whole face: most close pairs are neighbours only through the periodic image across that face
-        cm = cm * int(rs.randint(2, 4)); cell = cm.tolist()
-        ks = [kk for kk in (3, 5, 7, 9) if _faces_ok(cell, kk * kk)] or [1]
+        # (mode 6: a cell 80 times larger, 60..130 nm wide against cutoffs of 0.3..0.45 nm -- hundreds of voxels per axis)
+        cm = cm * (80 if mode == 6 else int(rs.randint(2, 4))); cell = cm.tolist()
+        ks = [kk for kk in ((5, 7) if mode == 6 else (3, 5, 7, 9)) if _faces_ok(cell, kk * kk)] or [1]
         k = ks[rs.randint(len(ks))]
         n = int(rs.randint(8, 15))
     if mode == 0:      # inside the primary cell
@@ -78,7 +79,10 @@ def _one(rs, md, base_id, ci):
                     d[ax] += 1
                 else:
                     d[[x for x in range(3) if x not in (ax, e)][0]] = 0
-            pos += [A, A + d]
+            if rs.rand() < 0.5:                                      # half of the pairs: pulled inside the cutoff along e
+                while 4 * int(d @ d) >= k * k and d[e] != 0:
+                    d[e] -= int(np.sign(d[e]))
+            pos += [A, A + d] if rs.rand() < 0.5 else [A + d, A]      # either of the two may come first in the atom order
         pos = np.array(pos)
     else:              # on cell faces / voxel boundaries
         pos = np.floor(rs.rand(n, 3) @ cm).astype(int)
